@@ -1153,6 +1153,74 @@ func c02(run *ev.Run, tier string) {
 			}
 		}
 	}
+	// part 2b: text fields are data. A homepage is written as configured (no URL
+	// normalisation or re-encoding), and a relation that names the package itself is a
+	// relation like any other
+	for _, hp := range []string{"HTTPS://Example.COM/p\u00e4th with space/#", "https://example.com/a|b^c`d{e}<f>\"g\"", "https://xn--bcher-kva.example/%7euser/../x"} {
+		for _, f := range formats {
+			s := base()
+			s.Homepage = hp
+			run.Case("homepage-as-written|"+hp+"|"+f, true)
+			if p := buildDecode(s, f, "homepage "+hp); p != nil {
+				var got string
+				switch f {
+				case "deb", "ipk":
+					got, _ = p.MetaGet("Homepage")
+				case "rpm":
+					got, _ = p.Rpm.Hdr.Str(dec.RpmTagURL)
+				default:
+					got, _ = p.MetaGet("url")
+				}
+				atomic.AddInt64(&cmps, 1)
+				if got != hp {
+					run.Violate("C02/"+f+"/homepage-not-as-written", map[string]any{"configured": hp, "in_package": got})
+				}
+			}
+		}
+	}
+	for _, f := range formats {
+		s := base()
+		s.Provides = []string{s.Name, "virtual-thing"}
+		s.Replaces = []string{s.Name}
+		run.Case("relation-naming-the-package-itself|"+f, true)
+		p := buildDecode(s, f, "provides and replaces the package's own name")
+		if p == nil {
+			continue
+		}
+		for rel, want := range map[string][]string{"provides": s.Provides, "replaces": s.Replaces} {
+			var got []string
+			switch f {
+			case "deb", "ipk":
+				v, _ := p.MetaGet(map[string]string{"provides": "Provides", "replaces": "Replaces"}[rel])
+				got = splitList(v)
+			case "rpm":
+				tags := map[string][2]int{"provides": {dec.RpmTagProvideName, dec.RpmTagProvideVer}, "replaces": {dec.RpmTagObsoleteName, dec.RpmTagObsoleteVer}}[rel]
+				names, vers := p.Rpm.Hdr.StrList(tags[0]), p.Rpm.Hdr.StrList(tags[1])
+				for k, n := range names {
+					// the writer's own versioned self-provide is not a configured relation
+					if k < len(vers) && vers[k] == "" {
+						got = append(got, n)
+					}
+				}
+			default:
+				got = dec.GetAll(p.Meta, rel)
+			}
+			atomic.AddInt64(&cmps, 1)
+			if strings.Join(got, "|") != strings.Join(want, "|") {
+				run.Violate("C02/"+f+"/relation-naming-the-package-itself-dropped/"+rel, map[string]any{"configured": want, "in_package": got})
+			}
+		}
+	}
+	// part 2c: a build that failed half-way leaves nothing behind for the next one
+	afterFailedBuilds(run, "C02", func(f string, raw []byte, p *dec.Package) []problem {
+		var ps []problem
+		for _, key := range map[string][]string{"deb": {"Package", "Version"}, "ipk": {"Package", "Version"}, "apk": {"pkgname", "pkgver"}, "archlinux": {"pkgname", "pkgver"}}[f] {
+			if n := len(dec.GetAll(p.Meta, key)); n != 1 {
+				ps = append(ps, problem{"metadata-field-count", fmt.Sprintf("%s appears %d times", key, n)})
+			}
+		}
+		return ps
+	})
 	// part 3: generated metadata
 	parallel(n, 8, func(i int) {
 		if *flagOnly >= 0 && i != *flagOnly {
